@@ -116,7 +116,7 @@ def cc(name, harness_srcs, repo_rel_srcs, extra=(), sanitize=True, libs=("gnutls
         if os.path.isdir(dd):
             hdrs += sorted(os.path.join(dd, f) for f in os.listdir(dd) if f.endswith(".h"))
     hdrs += sorted(os.path.join(ROOT, "harness", f) for f in os.listdir(os.path.join(ROOT, "harness")) if f.endswith(".h"))
-    stamp = file_hash(srcs + hdrs) + hashlib.sha256(repr((extra, sanitize, libs, compiler)).encode()).hexdigest()[:8]
+    stamp = file_hash(srcs + hdrs) + all_source_hash() + hashlib.sha256(repr((extra, sanitize, libs, compiler)).encode()).hexdigest()[:8]
     out = os.path.join(BUILD, name)
     sfile = out + ".stamp"
     if os.path.exists(out) and os.path.exists(sfile) and open(sfile).read() == stamp:
@@ -149,6 +149,92 @@ def cc(name, harness_srcs, repo_rel_srcs, extra=(), sanitize=True, libs=("gnutls
     if rc != 0:
         return None, o
     with open(sfile, "w") as f:
+        f.write(stamp)
+    return out, "built"
+
+
+AGENT_SRCS = ["agent/address.c", "agent/agent.c", "agent/candidate.c", "agent/component.c", "agent/conncheck.c",
+              "agent/debug.c", "agent/discovery.c", "agent/inputstream.c", "agent/interfaces.c", "agent/iostream.c",
+              "agent/outputstream.c", "agent/pseudotcp.c", "agent/stream.c"]
+SOCKET_SRCS = ["socket/socket.c", "socket/udp-bsd.c", "socket/tcp-bsd.c", "socket/tcp-active.c", "socket/tcp-passive.c",
+               "socket/pseudossl.c", "socket/socks5.c", "socket/http.c", "socket/udp-turn.c", "socket/udp-turn-over-tcp.c"]
+
+
+def all_source_hash():
+    """hash of every .c/.h of libnice (harnesses may #include .c files directly)"""
+    fs = []
+    for d in ("agent", "stun", "stun/usages", "socket", "random"):
+        dd = os.path.join(REPO, d)
+        if os.path.isdir(dd):
+            fs += sorted(os.path.join(dd, f) for f in os.listdir(dd) if f.endswith((".h", ".c")))
+    return file_hash(fs)
+
+
+def header_hash():
+    hdrs = []
+    for d in ("agent", "stun", "stun/usages", "socket", "random"):
+        dd = os.path.join(REPO, d)
+        if os.path.isdir(dd):
+            hdrs += sorted(os.path.join(dd, f) for f in os.listdir(dd) if f.endswith(".h"))
+    hdrs += [os.path.join(d, f) for d in gen_include_dir() for f in ("config.h", "agent-enum-types.h") if os.path.exists(os.path.join(d, f))]
+    return file_hash(hdrs)
+
+
+def repo_objects(rel_srcs, variant="san", extra=(), sanitize=True, compiler="gcc"):
+    """Compile /repo sources (working tree) to cached objects, one per file, recompiling a file only when it,
+    any libnice header or the flags changed.  Returns (list of .o | None, log)."""
+    odir = os.path.join(BUILD, "obj-" + variant)
+    os.makedirs(odir, exist_ok=True)
+    hh = header_hash()
+    flags = repo_cflags() + (SAN if sanitize else ["-O1", "-g"]) + list(extra)
+    fkey = hashlib.sha256(repr((flags, compiler)).encode()).hexdigest()[:8]
+    todo, objs = [], []
+    for r in rel_srcs:
+        src = os.path.join(REPO, r) if not os.path.isabs(r) else r
+        if r == "agent/agent-enum-types.c":
+            src = os.path.join(gen_include_dir()[-1], "agent-enum-types.c")
+        o = os.path.join(odir, r.replace("/", "__") + ".o")
+        st = file_hash([src]) + hh + fkey
+        objs.append(o)
+        if not (os.path.exists(o) and os.path.exists(o + ".stamp") and open(o + ".stamp").read() == st):
+            todo.append((src, o, st, r))
+    procs, logs, bad = [], [], False
+    for src, o, st, r in todo:
+        dom = "libnice" if r.startswith("agent") else ("libnice-socket" if r.startswith("socket") else "libnice-stun")
+        procs.append((src, o, st, subprocess.Popen([compiler, "-c", src, "-o", o, '-DG_LOG_DOMAIN="%s"' % dom] + flags,
+                                                   stdout=subprocess.PIPE, stderr=subprocess.STDOUT, text=True)))
+        while len([p for *_, p in procs if p.poll() is None]) >= NPROC:
+            time.sleep(0.01)
+    for src, o, st, p in procs:
+        out, _ = p.communicate()
+        if p.returncode != 0:
+            bad = True
+            logs.append("== %s\n%s" % (src, out[-3000:]))
+            for f in (o, o + ".stamp"):
+                if os.path.exists(f):
+                    os.unlink(f)
+        else:
+            with open(o + ".stamp", "w") as f:
+                f.write(st)
+    if bad:
+        return None, "\n".join(logs)
+    return objs, "%d compiled, %d cached" % (len(todo), len(objs) - len(todo))
+
+
+def link(name, harness_srcs, objs, extra=(), sanitize=True, libs=("gnutls",), compiler="gcc", timeout=600):
+    """Compile harness sources and link them with cached repo objects into build/<name>."""
+    hs = [os.path.join(ROOT, "harness", s) if not os.path.isabs(s) else s for s in harness_srcs]
+    hh = sorted(os.path.join(ROOT, "harness", f) for f in os.listdir(os.path.join(ROOT, "harness")) if f.endswith(".h"))
+    stamp = file_hash(hs + hh + objs) + all_source_hash() + hashlib.sha256(repr((extra, sanitize, libs)).encode()).hexdigest()[:8]
+    out = os.path.join(BUILD, name)
+    if os.path.exists(out) and os.path.exists(out + ".stamp") and open(out + ".stamp").read() == stamp:
+        return out, "cached"
+    flags = repo_cflags() + (SAN if sanitize else ["-O1", "-g"]) + list(extra)
+    ldflags = ["-rdynamic"] + pkg("--libs") + ["-l" + l for l in libs] + ["-lm", "-lpthread"]
+    rc, o = sh([compiler] + hs + objs + ["-o", out] + flags + ldflags, timeout=timeout)
+    if rc != 0:
+        return None, o
+    with open(out + ".stamp", "w") as f:
         f.write(stamp)
     return out, "built"
 
@@ -618,3 +704,44 @@ def correspond(chk, cases, model_exe, impl_exe, oracle=None, what="", nontrivial
             chk.cov["traces_validated_against_impl"] += 1
     chk.cov["correspondence"][what] = {"cases": len(cases), "mismatches": mism, "oracle_failures": orf}
     return mism, orf
+
+
+# --------------------------------------------------------------------------
+# translator front-end: regenerate coq/Gen/<Module>.v from /repo's working tree
+# --------------------------------------------------------------------------
+def gen_module(module, specs, extra_text="", constants=()):
+    """specs: list of (c file relative to /repo, [function names, callees first], [headers for constants]).
+    Writes coq/Gen/<module>.v when its content changed.  Returns (info dict | None, error text)."""
+    sys.path.insert(0, os.path.join(ROOT, "tools"))
+    import c2v
+    cfl = [f for f in repo_cflags() if f != "-w"]
+    key = file_hash([os.path.join(REPO, c) for c, _, _ in specs] + [os.path.join(ROOT, "tools", "c2v.py")]) + header_hash() + \
+        hashlib.sha256(repr((specs, constants)).encode()).hexdigest()[:8]
+    cdir = os.path.join(BUILD, "c2v-cache")
+    os.makedirs(cdir, exist_ok=True)
+    cfile_ = os.path.join(cdir, module + "-" + key + ".json")
+    if os.path.exists(cfile_):
+        d = json.load(open(cfile_))
+    else:
+        texts, infos, known = [], {}, {}
+        try:
+            for c, fns, hdrs in specs:
+                def consts(names, hdrs=hdrs):
+                    return c2v.probe_constants([os.path.join(REPO, h) for h in hdrs], names, cfl)
+                t, info, known = c2v.translate_file(os.path.join(REPO, c), fns, cfl, consts, known)
+                texts.append("(* from %s *)\n" % c + t)
+                infos.update(info)
+        except c2v.TranslateError as e:
+            return None, "translator cannot render %s any more: %s" % (module, e)
+        ctext = ""
+        try:
+            for hdrs, names in constants:
+                vals = c2v.probe_constants([os.path.join(REPO, h) for h in hdrs], set(names), cfl)
+                for nm in names:
+                    ctext += "Definition c_%s : Z := %s.\n" % (nm, ("(%d)" % vals[nm]))
+        except c2v.TranslateError as e:
+            return None, "translator cannot evaluate constants of %s any more: %s" % (module, e)
+        d = {"text": c2v.PRELUDE + ctext + "\n".join(texts), "info": infos}
+        json.dump(d, open(cfile_, "w"))
+    write_if_changed(os.path.join(COQ, "Gen", module + ".v"), d["text"] + extra_text)
+    return d["info"], ""
